@@ -177,7 +177,7 @@ def pkg_config():
     return config['bit_config']
 
 
-def gen_config(rng, with_decimal=False):
+def gen_config(rng, with_decimal=False, decimal_widths=(3, 6, 8, 12, 15)):
     """a caller-supplied configuration: random bits 2..128, all field kinds, PDS carriers, ICC, PAN, dates
     (and `decimal` typed fixed elements of 3..15 characters when asked for)"""
     cfg = {}
@@ -194,7 +194,7 @@ def gen_config(rng, with_decimal=False):
             icc_done = True
             fc.update(field_type='LLLVAR', field_length=255, field_processor='ICC')
         elif with_decimal and r < 0.40:
-            fc.update(field_type='FIXED', field_length=rng.choice([3, 6, 8, 12, 15]), field_python_type='decimal')
+            fc.update(field_type='FIXED', field_length=rng.choice(list(decimal_widths)), field_python_type='decimal')
         elif r < 0.32:
             fc.update(field_type='LLVAR', field_length=0, field_processor=rng.choice(['PAN', 'PAN-PREFIX']))
         elif r < 0.45:
@@ -398,6 +398,9 @@ def dict_unwire(s):
             val = int(v[1:])
         elif v[0] == 'b':
             val = bytes.fromhex(v[1:])
+        elif v[0] == 'd':
+            sg, ds, ex = v[1:].split(':')
+            val = decimal.Decimal((int(sg), tuple(int(c) for c in ds), int(ex) if ex.lstrip('-').isdigit() else ex))
         else:
             y, m, d, H, M, S = map(int, v[1:].split('-'))
             val = datetime.datetime(y, m, d, H, M, S)
